@@ -82,6 +82,7 @@ func jobs(ctx *vrun.Ctx) []*job {
 	hc.Hellos = []string{"v2", "v1", "v1wrong"}
 	if ctx.Thorough {
 		hc.GarbageLens, hc.Decoys, hc.PMs = G, []int{0, 1, 2}, []int{0, 1, 4, 15}
+		hc.Encodings = []string{"canon", "uplusp"}
 	} else {
 		hc.GarbageLens, hc.Decoys, hc.PMs = []int{0, 1, 4095}, []int{0, 1}, []int{0, 15}
 	}
@@ -105,8 +106,7 @@ func jobs(ctx *vrun.Ctx) []*job {
 	long.Sizes = []int{0, 1, 40, 1000}
 	long.MaxApp, long.MaxFlight, long.MaxFaults = 520, 3, 0
 	long.TrackNonces = false
-	// (not 4095: the known terminator-scan finding would end the session in the handshake)
-	long.Scenarios = []scen{{gI: G[rng.Intn(5)], gR: G[rng.Intn(5)], dI: rng.Intn(3), dR: rng.Intn(3), hello: "v2"}}
+	long.Scenarios = []scen{{gI: G[rng.Intn(6)], gR: G[rng.Intn(6)], dI: rng.Intn(3), dR: rng.Intn(3), hello: "v2"}}
 	js = append(js, &job{name: "long", p: long, mode: "sim", realRI: true, needLong: true,
 		sim: &tlc.Sim{Num: pick(3, 16), Depth: 2800, Seed: seed*17 + 5}})
 
@@ -138,7 +138,7 @@ func Run(ctx *vrun.Ctx) error {
 	ctx.Ev.Coverage.Rule = "every edge of the TLC state graphs hs-graph and stream-graph (rekey interval 3) replayed on real<->real, real<->reference and reference<->real endpoint pairs; simulated behaviours of the two-fault models and of the rekey-interval-224 model replayed likewise; all invariants of V2Transport.tla checked exhaustively by TLC on the listed configurations"
 	ctx.Ev.Coverage.Explanation = "not exhaustive over the property's quantifier: garbage lengths are the classes {0,1,15,16,4094,4095}, keys are random per session, fault offsets inside a unit are seeded; TLC explores the listed finite configurations completely (rekey interval 3), the thorough tier replays every edge of the dumped graphs, the quick tier a scenario-stratified sample"
 	ctx.Assume("symbolic cryptography: ChaCha20, Poly1305, HKDF and ECDH are ideal (a ciphertext opens only under the same key, nonce and associated data); collisions of random garbage/ciphertext bytes with the 16-byte terminator are ignored")
-	ctx.Assume("ElligatorSwift field arithmetic (XSwiftEC and its inverse) is not specified in TLA+; it is exercised only: encode->decode equality in every reference handshake, both sides reach equal secrets, BIP324 decode/ECDH vectors")
+	ctx.Assume("ElligatorSwift field arithmetic (XSwiftEC and its inverse) is not specified in TLA+; EllswiftBytes.tla specifies only the per-half reduction modulo p and the zero->one replacement of the 64-byte entry points; the arithmetic is exercised: 7x7 boundary classes of the two halves and the 76 BIP324 decode vectors through EllswiftECDHXOnly/V2Ecdh against a big-int XSwiftEC, encode->decode equality in every reference handshake (some with a non-canonical u + p half), both sides reach equal secrets")
 	ctx.Assume("channel faults act on whole protocol units in flight (byte flips at seeded offsets inside a unit, truncation inside a unit, drop/duplicate/swap of units); key units are only flipped or truncated")
 	if ctx.Replay != "" {
 		return replayFile(ctx)
@@ -174,7 +174,20 @@ func Run(ctx *vrun.Ctx) error {
 			errs[i] = j.run(ctx, st)
 		}(i, j)
 	}
+	var ellErr error
+	if only := os.Getenv("VERIF_V2_JOBS"); only == "" || strings.Contains(","+only+",", ",ellswift-bytes,") {
+		wg.Add(1)
+		go func() {
+			defer wg.Done()
+			sem <- struct{}{}
+			defer func() { <-sem }()
+			ellErr = runEllswiftBytes(ctx)
+		}()
+	}
 	wg.Wait()
+	if ellErr != nil {
+		return ellErr
+	}
 	for _, e := range errs {
 		if e != nil {
 			return e
